@@ -94,6 +94,8 @@ const SIGNALS: [(&str, Ty); 44] = [
 ];
 /// aliases are entities of their own (ObjectAlias), not signals for the lint: (name, id)
 const ALIASES: [(&str, u32); 2] = [("al0", 230), ("al1", 231)];
+/// signals visible in the statement part of the entity: its ports and the package signal
+const ENTITY_POOL: [u32; 12] = [7, 8, 13, 17, 37, 38, 39, 40, 41, 42, 43, 44];
 const GS: u32 = 8;
 const CLK: u32 = 24;
 /// signals 1..36; subprograms with their formals (`o id n formals.. returns_boolean`), parameter objects (`p id mode is_signal`)
@@ -248,6 +250,9 @@ struct G {
     allow_outside: bool,
     allow_outact: bool,
     allow_heur: bool,
+    /// a passive process for the statement part of an entity: only ports and the package signal are visible,
+    /// no signal assignment
+    passive: bool,
     loopd: u32,
     /// declared loop parameters (for loops only)
     lvars: Vec<u32>,
@@ -1021,7 +1026,7 @@ impl G {
     }
     fn gen_assign(&mut self, d: u32, ind: usize) -> S {
         let ty = *self.rng.pick(&[Ty::Bit, Ty::Bit, Ty::Bit, Ty::Int, Ty::Int, Ty::Vec, Ty::Bool]);
-        let kind = self.rng.below(10); // 0..5 signal, 6..8 variable, 9 force/release
+        let kind = if self.passive { 6 } else { self.rng.below(10) }; // 0..5 signal, 6..8 variable, 9 force/release
         let form = self.rng.below(8); // 0..5 simple, 6 conditional, 7 selected
         let variable = (6..9).contains(&kind);
         let force = kind == 9 && ty == Ty::Bit;
@@ -1217,7 +1222,7 @@ impl G {
         }
     }
     fn gen_call(&mut self, d: u32) -> S {
-        let which = self.rng.below(12);
+        let which = if self.passive { 0 } else { self.rng.below(12) };
         // (name, id, formals: (name, id, mode))
         let (pname, pid, formals): (&str, u32, Vec<(&str, u32, char)>) = match which {
             0..=4 => ("pb", ID_PB, vec![("a", 410, 'i'), ("b", 411, 'i'), ("c", 412, 'i'), ("d", 413, 'i')]),
@@ -1432,7 +1437,8 @@ impl G {
                     3 => {
                         // for i in v'range: the prefix of 'range is not read
                         self.em.toks(&format!("for {} in", lv));
-                        let vs: Vec<u32> = (1..=NSIG).filter(|s| sig_ty(*s) == Ty::Vec).collect();
+                        let vs: Vec<u32> =
+                            (1..=NSIG).filter(|s| sig_ty(*s) == Ty::Vec && (!self.passive || ENTITY_POOL.contains(s))).collect();
                         let s = vs[self.rng.below(vs.len())];
                         let p = self.name(sig_name(s), s);
                         self.em.tok("'");
@@ -1607,15 +1613,20 @@ fn gen_case(rng: &mut Rng, id: String, label: String, max_depth: u32, allow_outa
         allow_outside: false,
         allow_outact: false,
         allow_heur: false,
+        passive: false,
         loopd: 0,
         lvars: Vec::new(),
         label: String::new(),
         max_depth,
     };
+    // one process in twelve is a passive process placed in the statement part of an entity
+    g.passive = g.rng.chance(1, 12);
+    let passive = g.passive;
     // working set
     let quota = [(Ty::Bit, 4), (Ty::Int, 3), (Ty::Vec, 2), (Ty::Arr, 1), (Ty::Rec, 1), (Ty::Bool, 1), (Ty::Mem, 1)];
     for (ty, maxn) in quota {
-        let mut c: Vec<u32> = (1..=NSIG).filter(|s| sig_ty(*s) == ty && *s != CLK).collect();
+        let mut c: Vec<u32> =
+            (1..=NSIG).filter(|s| sig_ty(*s) == ty && *s != CLK && (!passive || ENTITY_POOL.contains(s))).collect();
         let n = g.rng.below(maxn + 1).max(if ty == Ty::Bit { 1 } else { 0 });
         for _ in 0..n {
             if c.is_empty() {
@@ -1629,9 +1640,9 @@ fn gen_case(rng: &mut Rng, id: String, label: String, max_depth: u32, allow_outa
     // 0..69 combinational in-family; 70..79 combinational with out-of-family constructs; 80..84 heuristic boundary;
     // 85..91 clocked; 92..95 all; 96..99 no list
     g.allow_outside = (70..80).contains(&variant);
-    g.allow_heur = (80..85).contains(&variant);
-    g.allow_outact = allow_outact && variant % 7 == 3;
-    let clocked = (85..92).contains(&variant);
+    g.allow_heur = !passive && (80..85).contains(&variant);
+    g.allow_outact = !passive && allow_outact && variant % 7 == 3;
+    let clocked = !passive && (85..92).contains(&variant);
     let cat = if clocked {
         'k'
     } else if (92..96).contains(&variant) {
@@ -1646,7 +1657,10 @@ fn gen_case(rng: &mut Rng, id: String, label: String, max_depth: u32, allow_outa
         g.em.tok(&label);
         g.em.tok(":");
     }
+    // the diagnostic is anchored at the first token of the process statement: `postponed` if present
+    let post = if g.rng.chance(1, 10) { Some(g.em.tok("postponed")) } else { None };
     let kwt = g.em.tok("process");
+    let kwt = post.unwrap_or(kwt);
     let kw = (kwt, kwt);
     let mut listed: Vec<(u32, Sp)> = Vec::new();
     let mut names: Vec<E> = Vec::new();
@@ -1667,7 +1681,7 @@ fn gen_case(rng: &mut Rng, id: String, label: String, max_depth: u32, allow_outa
                 }
             }
             for _ in 0..g.rng.below(3) {
-                let s = 1 + g.rng.below(NSIG as usize) as u32;
+                let s = if passive { ENTITY_POOL[g.rng.below(ENTITY_POOL.len())] } else { 1 + g.rng.below(NSIG as usize) as u32 };
                 if !l.contains(&s) && !g.ws.contains(&s) {
                     l.push(s);
                 }
@@ -1815,6 +1829,9 @@ fn gen_case(rng: &mut Rng, id: String, label: String, max_depth: u32, allow_outa
     }
     if g.heur || dup {
         flags.push('H');
+    }
+    if passive {
+        flags.push('P');
     }
     flags.push(cat);
     Case { id, flags, text: g.em.lines.join("~"), oracle, ast: ser_proc(&p), coq: cproc(&p) }
